@@ -10,6 +10,8 @@ structure DState where
   accHash : Nat := 14695981039346656037
   monitor : Bool := false        -- a format/filter the model does not cover: check the predicate on `obs` only
   freed : Bool := false
+  everBad : Bool := false        -- some earlier call saw a failing callback invocation
+  sawFilter : Bool := false      -- a `filter` op was issued (the filter chain is freed when open fails)
 
 def fnvStep (h b : Nat) : Nat := ((h ^^^ (b % 256)) * 1099511628211) % 18446744073709551616
 def mix (h x : Nat) : Nat := ((h ^^^ (x % 18446744073709551616)) * 1099511628211) % 18446744073709551616
@@ -41,14 +43,17 @@ def stName (r : Int) : String :=
 def report (d : DState) (evs : List Event) : DState × String :=
   let tk := taken evs
   let accHash := tk.foldl (fun h c => fnvStep h (cellByte c)) d.accHash
-  let d' := { d with accLen := d.accLen + tk.length, accHash := accHash }
   let bad := evs.any (fun e => e.ret ≤ 0)
+  let d' := { d with accLen := d.accLen + tk.length, accHash := accHash, everBad := d.everBad || bad }
   let undef := evs.any (fun e => e.offer.any Option.isNone)
   let memTxt := match d.w with
     | .mem m => s!" used={m.clientUsed}" ++ (if m.oob then " MODEL-OOB" else "")
     | _ => ""
+  let streamTxt := match d.h with
+    | some h => if h.fmt = .raw ∧ h.enc.isNone ∧ !d.sawFilter ∧ !d.everBad then " stream=ok" else ""
+    | none => ""
   (d', s!" ev={evs.length} sz={rleStr (evs.map (·.offer.length))} h={eventsHash evs} bad={if bad then 1 else 0}" ++
-    s!" acc={d'.accLen}:{d'.accHash}" ++ (if undef then " UNDEF" else "") ++ memTxt)
+    s!" acc={d'.accLen}:{d'.accHash}" ++ (if undef then " UNDEF" else "") ++ streamTxt ++ memTxt)
 
 def finish (d : DState) (name : String) (r : Int × Handle × List Event × DW) (asCount : Bool := false) :
     DState × String :=
@@ -108,8 +113,8 @@ def stepLine0 (d : DState) (op obs : String) : DState × String :=
     if d.monitor then (d, obs) else
     if h.state ≠ .new then ({ d with h := some { h with state := .fatal } }, "filter fatal") else
     if h.enc.isSome then ({ d with monitor := true }, obs) else
-    if f == "b64" then ({ d with h := some { h with enc := some { kind := .b64 } } }, "filter ok")
-    else if f == "uu" then ({ d with h := some { h with enc := some { kind := .uu } } }, "filter ok")
+    if f == "b64" then ({ d with sawFilter := true, h := some { h with enc := some { kind := .b64 } } }, "filter ok")
+    else if f == "uu" then ({ d with sawFilter := true, h := some { h with enc := some { kind := .uu } } }, "filter ok")
     else ({ d with monitor := true }, obs)
   | ["opt", _] => if d.monitor then (d, obs) else (d, "bad-op")
   | ["opener", v] =>
